@@ -98,6 +98,22 @@ def group_runs(g, tier):
                 runs.append(dict(kind='tree2', cfg1=c1, cfg2=c2, names=['ascii', 'prefix', 'dotted', 'multi'][k % 4], b=[1, 1, 4096, 8193][k % 4] if q else [1, 2731, 8193, 21846][k % 4],
                                  frac=(0.004 if heavy else 0.008) if q else 0.25, inst='MC_Tree2_q', tspec='Trace_Tree2'))
         return runs
+    if g == 'async':
+        k = 1 if q else 20
+        def H(cfg, names='ascii', b=1, walks=40, depth=1, nz=False):
+            return dict(kind='handles', cfg=cfg, names=names, b=b, walks=walks, len=60, lower=False, depth=depth, extreme=True, inst='MC_Handles_q', tspec='Trace_Handles', no_zero_read=nz)
+        return [
+            W('async:mem', 'edges', frac=0.04 if q else 1.0), W('async:mem', 'random', names='prefix', walks=15 * k, length=40),
+            W('async:phys', 'edges', frac=0.015 if q else 0.5), W('async:phys', 'random', names='multi', b=8193, walks=6 * k, length=30),
+            W('async:alt(zr,mem)', 'random', names='dotted', walks=12 * k, length=40), W('async:alt(zr/zs,phys)', 'random', walks=6 * k, length=30),
+            W('async:ovl(mem,mem)', 'edges', frac=0.02 if q else 0.5), W('async:ovl(mem,mem)', 'random', walks=15 * k, length=40, lts='deep'),
+            W('async:ovl(mem,mem,mem)', 'random', walks=8 * k, length=40), W('async:ovl(phys,phys)', 'random', walks=5 * k, length=30),
+            W('async:alt(zr,ovl(mem,mem))', 'random', walks=8 * k, length=40), W('async:ovl(alt(zu,mem),mem)', 'random', names='prefix', walks=8 * k, length=40),
+            dict(kind='awalk', cfgs='mem;ovl(mem,mem);alt(zr,mem);phys;ovl(phys,mem)', trees=6 * k, dense=10, pair_frac=0.1 if q else 1.0, tspec='Trace_WalkAsync'),
+            H('async:mem', walks=60 * k), H('async:mem', b=4096, names='multi', walks=15 * k, depth=2), H('async:ovl(mem,mem)', walks=30 * k), H('async:alt(zr,mem)', walks=20 * k, depth=2),
+            H('async:phys', walks=30 * k, nz=True), H('async:phys', b=8193, walks=8 * k, nz=True), H('async:ovl(phys,phys)', walks=10 * k, nz=True),
+            H('async:phys', walks=4, nz=False),   # keeps the known finding (zero-length read on async physical handles) under observation
+        ]
     if g == 'times':
         T = 'set_time,append_file,create_file,create_dir,remove_file'
         k = 1 if q else 25
@@ -177,6 +193,8 @@ def run_group(g, tier, seed, use_cache=True):
                 args.append('--lower-file')
             if r['extreme']:
                 args.append('--extreme')
+            if r.get('no_zero_read'):
+                args.append('--no-zero-read')
             s = harness(args)
         elif r['kind'] == 'tree2':
             mc = run_mc(r['inst'], r['inst'])
@@ -186,6 +204,15 @@ def run_group(g, tier, seed, use_cache=True):
             l2 = ensure_lts(r['inst'], r['inst'] + '_emit')
             s = harness(['tree2', '--lts', l2, '--cfg1', r['cfg1'], '--cfg2', r['cfg2'], '--names', r['names'], '--b', r['b'], '--frac', r['frac'],
                          '--seed', seed * 1000 + i, '--out', out])
+        elif r['kind'] == 'awalk':
+            mc = run_mc('MC_WalkAsync', 'MC_WalkAsync')
+            if not mc['ok']:
+                raise ToolError('model checking of MC_WalkAsync failed:\n%s' % mc.get('tail', ''))
+            mcs['MC_WalkAsync'] = mc
+            mod, cfg = LTS_INSTANCES['deep']
+            run_mc(mod, cfg)
+            s = harness(['awalk', '--lts', ensure_lts(mod, cfg + '_emit'), '--cfgs', r['cfgs'], '--seed', seed * 1000 + i, '--trees', r['trees'], '--dense', r['dense'],
+                         '--pair-frac', r['pair_frac'], '--out', out])
         elif r['kind'] == 'emb':
             mc = run_mc('MC_ReadOnly', 'MC_ReadOnly')
             if not mc['ok']:
@@ -268,6 +295,11 @@ def run_group(g, tier, seed, use_cache=True):
                     if len(ops) > 6:
                         break
                     continue
+                if e['ev'] == 'awalk':
+                    ops.append({k: e[k] for k in ('cfg', 'plan', 'items', 'polls', 'points')})
+                    if len(ops) > 2:
+                        break
+                    continue
                 if e['ev'] == 'hist':
                     ops.append({k: e[k] for k in ('cfg', 'init', 'pre_remove', 'progs', 'results', 'schedules', 'bound')})
                     if len(ops) > 2:
@@ -314,6 +346,7 @@ PROPS = {
     'C08': dict(groups=['ovl']),
     'C09': dict(groups=['ovl']),
     'C06': dict(groups=['join']),
+    'C15': dict(groups=['async', 'join']),
     'C19': dict(groups=['times', 'tree', 'alt', 'ovl']),
     'C18': dict(groups=['emb']),
     'C20': dict(groups=['faults']),
@@ -437,6 +470,13 @@ MANIFEST_TEXT = {
                 'for transfers ACROSS instances TLC explores all pairs of well-formed trees of a 3-path universe x all transfers (MC_Tree2, 784 states, 51856 edges) and the harness replays a seeded sample '
                 '(thorough: 25%) of those edges for every ordered pair of configurations (memory, physical, altroot, overlay incl. sources served from a lower layer), observing both filesystems completely.',
                 note=_NOTE, technique='TLA+ two-instance transfer model (VfsTree2/MC_Tree2) + LTS replay on ordered pairs of backends + TLC trace validation (Trace_Tree2)', ref='DESIGN.md 6 C11'),
+    'C15': dict(level='(i) The async filesystems (memory, physical, altroot, overlay and stackings) are driven through AsyncVfsPath on a tokio current-thread runtime by the same LTS walks and observed by the same observer as the sync '
+                'side, and TLC judges their traces by the SAME Level A (so outcomes, classes, trees and bytes equal the sync contract); (ii) async read handles and write handles run the handle LTS (Trace_Handles); '
+                '(iii) poll schedules: TLC model-checks WalkDirIterator::poll_next with an adversarial Pending environment (MC_WalkAsync: all trees <= 5 entries, all listing orders, <= 3 pendings: equals the sync walk), and on the code a PendingFS '
+                'wrapper makes read_dir / metadata / the directory stream return Pending per plan while the harness polls walk_dir by hand (every single placement of weight 1-2, sampled pairs, dense plans); TLC (Trace_WalkAsync) checks completeness, '
+                'no duplicates, parents first, termination; (iv) join/parent/filename/extension of AsyncVfsPath are compared in the C06 traces.',
+                note=_NOTE + ' Timestamp setters of AsyncMemoryFS (not implemented by design) and seeks on async write handles (Write only) are outside the property.',
+                technique='TLA+ Level-A trace validation of the async twins + MC_WalkAsync model checking + pending-plan replay (Trace_WalkAsync)', ref='DESIGN.md 6 C15'),
     'C16': dict(level='A cooperative scheduler drives real threads through the yield points placed (feature verif-hooks) before every lock acquisition of MemoryFS, so a schedule is a sequence of thread choices; '
                 'stateless DFS explores EVERY interleaving of all 2 x 1 programs over {a, a/b, a/c} x 5 initial maps (quick: seeded 60%/15% sample) and preemption-bounded (2; thorough 3) 2x2, 2x3, 3x1 programs, '
                 'also through an altroot. For every program all sequential call orders are executed on the same code; TLC (Trace_Lin) decides for every distinct history whether some sequential order '
